@@ -185,6 +185,27 @@ func (r *Resolver) AutoTA() {
 		return
 	}
 
+	// Revocations an earlier refresh accepted but could not write to the
+	// tombstone file exist only in this process: the files read above may
+	// still name such a key as a Valid anchor. Take them back in before
+	// anything is derived from disk, and turn the key's state entry into
+	// the StateRevoked marker so the state file carries the revocation
+	// should the tombstone write fail again.
+	r.RLock()
+	unpersisted := r.unpersistedRevocations
+	r.RUnlock()
+	for fp, tb := range unpersisted {
+		if _, exists := tombstones[fp]; !exists {
+			tombstones[fp] = tb
+		}
+		for _, ta := range kskCurrent {
+			if ta.State != StateRevoked && ta.State != StateRemoved && dnskeyMaterialFP(ta.DNSKey) == fp {
+				ta.State = StateRevoked
+				ta.FirstSeen = tb.FirstSeen
+			}
+		}
+	}
+
 	// Copy legacy Revoked/Removed entries into the material-keyed
 	// tombstone store so tag collisions with a future legitimate KSK
 	// can't suppress that future key. Keep the markers in kskCurrent
@@ -545,6 +566,13 @@ func (r *Resolver) AutoTA() {
 	// excludes Revoked from the live trust set, so the key stays
 	// fail-closed across retries.
 	tombErr := writeTombstones(tombstonePath, tombstones)
+	r.Lock()
+	if tombErr != nil {
+		r.unpersistedRevocations = tombstones
+	} else {
+		r.unpersistedRevocations = nil
+	}
+	r.Unlock()
 	if tombErr != nil {
 		zlog.Error("Refresh trust anchor tombstones failed — revocation kept in state as StateRevoked for next-run retry", "error", tombErr.Error())
 	} else {
